@@ -1,9 +1,10 @@
 #!/bin/bash
 # run_all.sh <tier> <seed>...  : runs every check, prints one line per (check, seed)
+HERE=$(dirname $(dirname $(realpath $0)))
 tier=$1; shift
 for seed in "$@"; do
   for c in C01 C02 C03 C04 C05 C06 C07 C08 C09 C10 C11 C12 C13 C14 C15 C16 C17 C18; do
-    out=$(cd /verif && VERIF_SEED=$seed ./check $c $tier 2>&1); rc=$?
-    echo "seed=$seed $c rc=$rc $(echo "$out" | grep -E "quick:|thorough:" | tail -1 | cut -c1-110) $(echo "$out" | grep -E "first:|probe .* failed|INFRA" | head -1 | cut -c1-200)"
+    s0=$(date +%s); out=$(cd $HERE && VERIF_SEED=$seed ./check $c $tier 2>&1); rc=$?; s1=$(date +%s)
+    echo "seed=$seed $c rc=$rc t=$((s1-s0))s $(echo "$out" | grep -E "quick:|thorough:" | tail -1 | cut -c1-110) $(echo "$out" | grep -E "first:|probe .* failed|INFRA" | head -1 | cut -c1-200)"
   done
 done
